@@ -74,6 +74,7 @@ type Lemma struct {
 	C     Clause
 	Tags  []string
 	Induc string // optional: induction variable
+	General []string // parameters generalised in the induction hypothesis
 }
 
 type ContractSet struct {
@@ -95,7 +96,7 @@ func splitTags(s string) (string, []string) {
 	return strings.TrimSpace(s[:m[0]]), tags
 }
 
-var inductRe = regexp.MustCompile(`\)\s+induct\s+(\w+)\s*:`)
+var inductRe = regexp.MustCompile(`\)\s+induct\s+(.+?)(?:\s+over((?:\s+\w+)+))?\s*:\s`)
 
 var labelRe = regexp.MustCompile(`^([A-Za-z_][A-Za-z0-9_.\-]*):\s+`)
 
@@ -156,8 +157,18 @@ func (cs *ContractSet) parseFile(path string) error {
 		case "func", "extern", "iface":
 			rest, tags := splitTags(rest)
 			name := rest
-			if _, dup := cs.Funcs[name]; dup {
-				return fail(fmt.Errorf("duplicate contract for %s", name))
+			if ex, dup := cs.Funcs[name]; dup {
+				// several blocks for one function (e.g. one per property file) are merged
+				if ex.Kind != kw {
+					return fail(fmt.Errorf("contract for %s declared both as %s and %s", name, ex.Kind, kw))
+				}
+				for _, t := range tags {
+					if !hasTag(ex.Tags, t) {
+						ex.Tags = append(ex.Tags, t)
+					}
+				}
+				cur = ex
+				continue
 			}
 			cur = &Contract{Name: name, Kind: kw, Loops: map[int]*LoopSpec{}, Tags: tags, File: path, Line: lnos[i], Opts: map[string]string{}}
 			cs.Funcs[name] = cur
@@ -176,9 +187,11 @@ func (cs *ContractSet) parseFile(path string) error {
 			rest, tags := splitTags(rest)
 			// lemma name(a int, s seq): expr
 			induct := ""
+			var general []string
 			if m := inductRe.FindStringSubmatch(rest); m != nil {
 				induct = m[1]
-				rest = strings.Replace(rest, m[0], "):", 1)
+				general = strings.Fields(m[2])
+				rest = strings.Replace(rest, m[0], "): ", 1)
 			}
 			j := strings.Index(rest, "):")
 			k := strings.Index(rest, "(")
@@ -203,7 +216,7 @@ func (cs *ContractSet) parseFile(path string) error {
 			if err != nil {
 				return fail(err)
 			}
-			cs.Lemmas = append(cs.Lemmas, &Lemma{Name: name, Params: params, Induc: induct, C: Clause{Label: name, E: e, Src: src, Tags: tags, File: path, Line: lnos[i]}, Tags: tags})
+			cs.Lemmas = append(cs.Lemmas, &Lemma{Name: name, Params: params, Induc: induct, General: general, C: Clause{Label: name, E: e, Src: src, Tags: tags, File: path, Line: lnos[i]}, Tags: tags})
 			cur = nil
 		default:
 			if cur == nil {
